@@ -71,7 +71,7 @@ var c21FaultCatalogue = []string{
 	"readerr:0", "readerr:10", "readerr:-1", "readerr:-9",
 	"empty", "text", "garbage:5", "garbage:200",
 	"truncb:0", "truncb:3", "truncb:8", "truncb:100", "trunce:1", "trunce:4", "trunce:8", "trunce:9", "trunce:16", "trunce:64", "trunce:200",
-	"flip:0", "flip:4:255", "flip:9:1", "flip:40:128", "flip:100:1", "flip:200:255",
+	"flip:0", "flip:16:1", "flip:9:1", "flip:40:128", "flip:100:1", "flip:200:255",
 	"trail:1", "trail:8", "trail0:8", "trail0:4", "trailstream",
 	"noeos", "cut:0", "cut:1", "cut:2",
 	"drift:same", "drift:name", "drift:null", "drift:type", "drift:smeta", "drift:fmeta", "drift:extra", "drift:nocols",
